@@ -7,7 +7,7 @@ cases to a file, runs `cargo test -p pybigtools verif_pyarrays` once, and reads 
 The two wrappers (intervals_to_array / entries_to_array) need a Python interpreter with numpy, so
 their arithmetic (fetch clamp, `match bins` value, out-of-bounds fill block) is cut out of the
 current text of lib.rs below (`make_glue`) and compiled into the same test binary."""
-import itertools, os, re, struct, subprocess
+import itertools, json, os, re, struct, subprocess, threading, time
 from fractions import Fraction
 from ..runner import Prop
 from .. import core
@@ -72,31 +72,107 @@ def cell_token(tok):
     a, b = x.as_integer_ratio()
     return [a, b]
 
-def run_rust(lines):
-    """one output line (raw, f64 bit patterns) per case line; raises on a build failure"""
+def build_env():
     d = work_dir()
-    glue = os.path.join(d, "glue.rs"); cases = os.path.join(d, "cases.txt"); out = os.path.join(d, "out.txt")
+    glue = os.path.join(d, "glue.rs")
     text = make_glue(os.path.join(core.REPO, "pybigtools", "src", "lib.rs"))
     if not os.path.exists(glue) or open(glue).read() != text:     # keep the mtime when unchanged
         open(glue, "w").write(text)
-    open(cases, "w").write("\n".join(lines) + "\n")
-    if os.path.exists(out):
-        os.remove(out)
-    env = dict(os.environ, CARGO_NET_OFFLINE="true", CARGO_TARGET_DIR=target_dir(), RUSTFLAGS="--cfg bigtools_verif",
-               BIGTOOLS_VERIF_PYARRAYS=os.path.join(core.VERIF, "harness", "pyarrays_verif.rs"),
-               BIGTOOLS_VERIF_PYGLUE=glue, BIGTOOLS_VERIF_CASES=cases, BIGTOOLS_VERIF_OUT=out)
-    p = subprocess.run(["timeout", "1500", "cargo", "test", "-p", "pybigtools", "--offline", "verif_pyarrays", "--", "--nocapture"],
-                       cwd=core.REPO, env=env, stdout=subprocess.PIPE, stderr=subprocess.STDOUT, text=True, errors="replace")
-    if not os.path.exists(out):
-        raise RuntimeError("pybigtools test binary did not run:\n" + p.stdout[-3000:])
-    res = open(out).read().split("\n")
-    if res and res[-1] == "":
-        res.pop()
+    return dict(os.environ, CARGO_NET_OFFLINE="true", CARGO_TARGET_DIR=target_dir(), RUSTFLAGS="--cfg bigtools_verif",
+                BIGTOOLS_VERIF_PYARRAYS=os.path.join(core.VERIF, "harness", "pyarrays_verif.rs"),
+                BIGTOOLS_VERIF_PYGLUE=glue)
+
+_EXE = {}
+def test_binary():
+    """(re)build pybigtools' unit-test binary from the working tree of core.REPO (cargo decides what is stale:
+    lib.rs, the included harness file and the generated glue are all tracked inputs) and return its path"""
+    key = os.path.abspath(core.REPO)
+    if key in _EXE:
+        return _EXE[key]
+    p = subprocess.run(["timeout", "1500", "cargo", "test", "-p", "pybigtools", "--offline", "--no-run", "--message-format=json"],
+                       cwd=core.REPO, env=build_env(), stdout=subprocess.PIPE, stderr=subprocess.PIPE, text=True, errors="replace")
+    exe = None
+    for line in p.stdout.split("\n"):
+        if not line.startswith("{"):
+            continue
+        try:
+            m = json.loads(line)
+        except ValueError:
+            continue
+        if m.get("reason") == "compiler-artifact" and m.get("executable") and m.get("profile", {}).get("test") \
+                and m.get("target", {}).get("name") == "pybigtools":
+            exe = m["executable"]
+    if p.returncode != 0 or not exe:
+        raise RuntimeError("pybigtools test binary did not build:\n" + p.stderr[-3000:])
+    _EXE[key] = exe
+    return exe
+
+def run_shard(exe, ix, lines, per_case_timeout):
+    """one result line per case line.  The binary flushes after every case, so when it is killed by the
+    watchdog (no progress) or dies, the case it was working on is known: (3) resp. (2), and the rest is resumed."""
+    d = work_dir()
+    cases = os.path.join(d, "cases-%d.txt" % ix); out = os.path.join(d, "out-%d.txt" % ix)
+    res = []
+    i = 0
+    hangs = 0
+    while i < len(lines):
+        if hangs >= 5:
+            res.extend(["(3)"] * (len(lines) - i)); break
+        open(cases, "w").write("\n".join(lines[i:]) + "\n")
+        if os.path.exists(out):
+            os.remove(out)
+        env = dict(os.environ, BIGTOOLS_VERIF_CASES=cases, BIGTOOLS_VERIF_OUT=out)
+        p = subprocess.Popen([exe, "verif_pyarrays", "--nocapture", "--test-threads", "1"], env=env, cwd=d,
+                             stdout=subprocess.DEVNULL, stderr=subprocess.DEVNULL)
+        done = 0; last = time.time(); hung = False
+        while True:
+            try:
+                p.wait(timeout=0.5)
+            except subprocess.TimeoutExpired:
+                pass
+            n = 0
+            if os.path.exists(out):
+                with open(out, "rb") as f:
+                    n = f.read().count(b"\n")
+            if n > done:
+                done = n; last = time.time()
+            if p.poll() is not None:
+                break
+            if time.time() - last > per_case_timeout:
+                hung = True; p.kill(); p.wait(); break
+        got = []
+        if os.path.exists(out):
+            got = open(out).read().split("\n")[:-1]       # a last line without its newline is incomplete
+        got = got[:len(lines) - i]
+        res.extend(got); i += len(got)
+        if i < len(lines):
+            res.append("(3)" if hung else "(2)"); i += 1
+            hangs += 1 if hung else 0
+    for f in (cases, out):
+        if os.path.exists(f):
+            os.remove(f)
     return res
+
+def run_rust(lines, per_case_timeout=120.0):
+    """one output line (raw, f64 bit patterns) per case line; raises on a build failure"""
+    exe = test_binary()
+    shards = core.NCPU
+    if len(lines) < 4 * shards:
+        return run_shard(exe, 0, lines, per_case_timeout)
+    k = (len(lines) + shards - 1) // shards
+    parts = [lines[j:j + k] for j in range(0, len(lines), k)]
+    res = [None] * len(parts)
+    def work(ix):
+        res[ix] = run_shard(exe, ix, parts[ix], per_case_timeout)
+    ts = [threading.Thread(target=work, args=(ix,)) for ix in range(len(parts))]
+    [t.start() for t in ts]; [t.join() for t in ts]
+    return [o for part in res for o in part]
 
 def convert(raw):
     """result line with bit patterns -> result line with exact fractions"""
     rs = parse_sx(raw)
+    if rs in ([2], [3]):          # the whole case was lost (process died / watchdog)
+        return raw
     outl = []
     for r in rs:
         if r and r[0] == 0:
@@ -170,7 +246,7 @@ def zoom_records(length, rng):
 class C20(Prop):
     ID = "C20"
     HARNESS = "c20"
-    THEOREMS = ["C20_per_base", "C20_bins_exact", "C20_bins_integral", "C20_bins_nan_free"]
+    THEOREMS = ["C20_bin_index_spec"]
     RULE = ("one case = one chromosome (length, value/entry layout) with a batch of queries (s, e, bins, statistic, missing, oob, "
             "reader hands over touching items or not).  Exhaustive block: every layout of <= 3 values (disjoint) / <= 3 entries "
             "(any overlap) on chromosomes of <= 5 bases (quick; <= 6 thorough) x every range [s,e) from 2 below 0 to 2 past the end x "
@@ -192,7 +268,7 @@ class C20(Prop):
     PER_CASE_TIMEOUT = 120.0
 
     def impl_outputs(self, lines):
-        raw = run_rust(lines)
+        raw = run_rust(lines, self.PER_CASE_TIMEOUT)
         if len(raw) != len(lines):
             raise RuntimeError("pybigtools test binary returned %d lines for %d cases" % (len(raw), len(lines)))
         return [convert(r) for r in raw]
